@@ -364,6 +364,21 @@ End Connection.
 Lemma reads_prepare closing q r : reads_of (prepare closing q r) = reads_of r.
 Proof. destruct (prepare_inv closing q r) as (_ & _ & _ & _ & _ & _ & H7 & _). unfold reads_of. rewrite H7. reflexivity. Qed.
 
+(* the status the client sees is the origin's: code, version, reason text *)
+Theorem status_intact closing q r order :
+  is_connect_ok q r = false ->
+  let o := observable closing q r order in
+  o_code o = r_code r /\ o_major o = r_major r /\ o_minor o = r_minor r /\ o_reason o = reason_text r.
+Proof.
+  intro Hc. cbv zeta. unfold observable.
+  destruct (prepare_inv closing q r) as (H1 & H2 & H3 & H4 & _).
+  assert (Hr : reason_text (prepare closing q r) = reason_text r) by (unfold reason_text; rewrite H3, H4; reflexivity).
+  assert (Hk : is_connect_ok q (prepare closing q r) = false) by (unfold is_connect_ok in *; rewrite H3; exact Hc).
+  unfold writer_kind. rewrite Hk.
+  destruct (is_header_only (q_method q) (r_code (prepare closing q r))); [cbn; auto|].
+  destruct (is_sse _); [cbn; auto|]. destruct (should_chunk _ _); cbn; auto.
+Qed.
+
 (* the body the client gets from Response.Write is the body the origin sent, byte for byte *)
 Theorem body_intact closing q r : o_body (go_obs (q_method q) (prepare closing q r)) = body_bytes r.
 Proof. unfold go_obs. cbn [o_body]. rewrite reads_prepare. apply concat_filter_nonempty. Qed.
